@@ -413,7 +413,20 @@ def stream_ros_e19(rng, n):
             # near-full utilisation / small-scope callback sets on a dedicated processor or a generous
             # reservation: busy windows spanning several instances of the analysed callback
             hp, (oa, oc) = gen.gen_dense_taskset(rng, nhp=rng.randint(1, 2)) if rng.random() < 0.4 else gen.gen_small_taskset(rng, nhp=rng.randint(1, 2))
-            own = ("rbf", oa, ("sc", oc))
+            # own cost: scalar, or a cost curve / multiframe vector whose later jobs are cheaper (the least
+            # WCET in an interval then depends on how many own jobs the interval holds)
+            u_ = rng.random()
+            if u_ < 0.55:
+                ocost = ("sc", oc)
+            elif u_ < 0.8:
+                inc = [max(1, oc - rng.randint(0, oc)) for _ in range(rng.randint(1, 3))]
+                vec = [oc]
+                for x in sorted(inc, reverse=True):
+                    vec.append(vec[-1] + min(x, oc))
+                ocost = ("cc", vec)
+            else:
+                ocost = ("mf", [oc] + [rng.randint(1, oc) for _ in range(rng.randint(1, 2))])
+            own = ("rbf", oa, ocost)
             interf = ("ragg", [("rbf", a, ("sc", c)) for a, c in hp])
             lim = rng.randint(300, 2000)
             if rng.random() < 0.6:
